@@ -203,6 +203,24 @@ Fixpoint run_phases_l (locks : list tid) (fuel : nat) (st : store) (p : jprog) :
       else (st1, [ex])
   end.
 
+(* ------------------------------------------------------------------ a store that shrinks under the worker
+   Other processes may REMOVE results while `jug execute` runs (jug invalidate, jug cleanup): [rms] lists what
+   disappears before each load.  Every load is [load] of the store as it is then - the loader keeps no memory of
+   what it saw in an earlier phase - so everything proved about [load] for any store applies to every phase. *)
+Definition remove_keys (ks : list tid) (st : store) : store :=
+  filter (fun kv => negb (existsb (Pos.eqb (fst kv)) ks)) st.
+
+Fixpoint run_phases_rm (rms : list (list tid)) (fuel : nat) (st : store) (p : jprog) : store * list (list tid) :=
+  match fuel with
+  | O => (st, [])
+  | S f =>
+      let st0 := remove_keys (hd [] rms) st in
+      let l := load st0 p in
+      let '(st1, ex) := exec_all st0 (l_tasks l) in
+      if l_hasbarrier l then let '(st2, exs) := run_phases_rm (tl rms) f st1 p in (st2, ex :: exs)
+      else (st1, [ex])
+  end.
+
 (* ------------------------------------------------------------------ `jug sleep-until`
    SleepUntilCommand.run (jug/subcommands/check.py): load; wait until every loaded task has a result
    (polling, one sleep per poll that fails); if the namespace has __jug__hasbarrier__ load again and
